@@ -1,5 +1,6 @@
+from xeng import progs, progs2, progs3
 from . import _common
 
 
 def run(out):
-    _common.run(out, 'C14', s_props=['C14'])
+    _common.run(out, 'C14', x=[dict(fn=progs3.c14_corpus, name='c14', kani_extra=('-Z', 'stubbing'))], s_props=['C14'])
